@@ -253,6 +253,8 @@ def kwargs_of(job, typ):
     elif o["pass"] == "some":
         pw = bytes(job["pw"])
         kw["passphrase"] = pw.decode("latin-1") if job.get("pwstr") else pw
+        if job.get("pwtext"):
+            kw["passphrase"] = job["pwtext"]            # a text passphrase with characters outside ASCII
     return kw
 
 
@@ -310,6 +312,38 @@ def run_job(job, keys, idx):
     imp = importer(info["type"], info["curve"], o)
     arg = out                                  # what export returned, as it was returned (str for ECC PEM / OpenSSH)
     modes = [("none", None)]
+    if o["pass"] == "some" and job.get("pwtext"):
+        # Text passphrase: "the same passphrase" is the same str object on both sides.  How text becomes octets is not documented, so the
+        # octets the container was really encrypted under are bound from what the API exposes: the byte-string passphrase (one of the
+        # two customary encodings of the text) that the importer accepts; the specification opens the container with those.
+        text = job["pwtext"]
+        enc = "latin-1"
+        for cand in ("latin-1", "utf-8"):
+            try:
+                imp(arg, text.encode(cand))
+                enc = cand
+                break
+            except Exception:       # noqa: BLE001
+                continue
+        t["pw"] = list(text.encode(enc))
+        t["pwstr"] = True
+        modes.append(("right", text))
+        modes += [("wrong1", text[:-1] + chr(ord(text[-1]) ^ 1)), ("wrong2", text + "x")]
+        for mode, pwx in modes:
+            rec = {"mode": mode, "pw": list(pwx.encode(enc)) if pwx else [], "eq": "", "ne": "", "priv": False, "comps": {}, "curve": ""}
+            try:
+                k2 = imp(arg, pwx)
+                rec["out"] = "ok"
+                rec["eq"] = cmp(k2, key, "eq")
+                rec["ne"] = cmp(k2, key, "ne")
+                c2 = comps_of(k2)
+                rec["priv"] = c2["priv"]
+                rec["comps"] = c2["comps"]
+                rec["curve"] = c2["curve"]
+            except Exception as e:  # the class is the observation
+                rec["out"] = exc_class(e)
+            t["imps"].append(rec)
+        return t
     if o["pass"] == "some":
         pw = bytes(job["pw"])
         modes.append(("right", pw))
